@@ -384,9 +384,13 @@ Proof.
   assert (E2 : (fsz <=? a) = false) by (apply Z.leb_gt; lia).
   assert (E3 : (a + zlen data <=? fsz) = true) by (apply Z.leb_le; lia).
   assert (E4 : (fsz <? a + zlen data) = false) by (apply Z.ltb_ge; lia).
+  assert (E5 : (a <? a + zlen data) = true) by (apply Z.ltb_lt; lia).
+  assert (E6 : (a <? fsz) = true) by (apply Z.ltb_lt; lia).
   unfold handle_fd_pdu. unfM. mrun.
   destruct (l_ind_seg cd); mrun; apply catch_ok; mrun; unfold lost_segment_handling; mrun;
     rewrite E1; mrun; rewrite E2; mrun; rewrite E3; mrun;
+    cbn [fold_left]; mrun; unfold remove_covered; cbn [fst snd];
+    rewrite E5, E6, Z.max_id, (Z.min_r fsz (a + zlen data)) by lia; cbn [andb]; mrun;
     rewrite remove_head by lia; mrun; wrM Hl; rewrite E4; mrun; reflexivity.
 Qed.
 
